@@ -381,6 +381,36 @@ def _drop(recs, idx, group_key):
     return [r for r in recs if r.get(group_key) != g]
 
 
+def tlaps(ctx, module, deps=(), expect_theorems=()):
+    """Checks the proofs of spec/<module>.tla with the TLA+ proof system (tlapm: SMT, Zenon, Isabelle back ends) in a
+    scratch copy (tlapm writes its cache next to the module).  Proof checking is about the specification only and is
+    deterministic up to back-end timeouts, so a failed run is retried once with longer timeouts before it counts."""
+    import shutil
+    d = os.path.join(ctx.work, "tlaps_" + module)
+    shutil.rmtree(d, ignore_errors=True)
+    os.makedirs(d)
+    for m in (module,) + tuple(deps):
+        shutil.copy(os.path.join(SPEC, m + ".tla"), d)
+    text = open(os.path.join(SPEC, module + ".tla")).read()
+    for t in expect_theorems:
+        if not re.search(r"THEOREM\s+%s\s*==" % t, text):
+            raise ToolError("%s: theorem %s not found" % (module, t))
+    n = None
+    for stretch, threads in ((3, 4), (12, 2)):
+        rc, out, err, dt = sh(["tlapm", "--threads", str(threads), "--stretch", str(stretch), "--cleanfp", module + ".tla"], cwd=d, timeout=1800)
+        m = re.search(r"All (\d+) obligations? proved", out + err)
+        if m:
+            n = int(m.group(1))
+            break
+    shutil.rmtree(d, ignore_errors=True)
+    if n is None:
+        sys.stderr.write((out + err)[-3000:])
+        raise ToolError("%s: the proof system left obligations unproved (specification-side; vek is not involved)" % module)
+    ctx.sub.append({"sub": "tlaps[%s]" % module, "kind": "machine_checked_proof", "obligations_proved": n,
+                    "theorems": list(expect_theorems), "wall_s": round(dt, 1)})
+    return n
+
+
 def selftest_corrupt(ctx, module, path, label, mutate, cfg=None):
     """Binding demonstration: a corrupted copy of an accepted trace must be rejected."""
     recs = read_ndjson(path)
